@@ -300,3 +300,28 @@ T('pB_twin_add_flags_in_a_loop', ['C07', 'C06'],
   (A, _ADDKW, "        for flag in ('rebind_render', 'inherit_slashes'):\n            kwargs.setdefault(flag, getattr(rf, flag, True))\n"))
 B('pB_add_flags_loop_misnamed', ['C07'], 'R07.c',
   (A, _ADDKW, "        for flag in ('rebind_render', 'inherit_slash'):\n            kwargs.setdefault(flag, getattr(rf, flag, True))\n"))
+
+# ---------------------------------------------------------------------------------------------- further equivalent spellings
+T('pB_x_breaking_flag_local', ['C06', 'C08'],
+  (A, _TAIL, "            is_breaking = getattr(ret, 'is_breaking', True)\n            if is_breaking:\n                break\n            dispatch_state.add_exception(ret)\n"))
+T('pB_x_http_flag_local', ['C06', 'C08'],
+  (A, "            if not isinstance(ret, HTTPException):\n                # TODO: verify behavior\n                break\n",
+      "            is_error = isinstance(ret, HTTPException)\n            if not is_error:\n                break\n"))
+T('pB_x_refused_local', ['C06', 'C07', 'C08'],
+  (A, "            method_allowed = route.match_method(method)\n            if not method_allowed:\n",
+      "            refused = not route.match_method(method)\n            if refused:\n"))
+T('pB_x_canonical_pass', ['C06', 'C07', 'C08'],
+  (A, _SLASH, "            if route.is_branch:\n                norm_path = normalize_path(url_path, route.is_branch)\n                if norm_path == url_path:\n                    pass\n"
+              "                elif route.slash_mode == S_REDIRECT:\n" + _QUERY +
+              "                    return redirect(request.url_root.rstrip('/') + url_quote(norm_path) + '?' + query)\n"
+              "                elif route.slash_mode == S_STRICT:\n" + _STRICT))
+T('pB_x_mode_first', ['C06', 'C07', 'C08'],
+  (A, _SLASH, "            if route.is_branch:\n                norm_path = normalize_path(url_path, route.is_branch)\n                mode = route.slash_mode\n"
+              "                if mode == S_REDIRECT and norm_path != url_path:\n" + _QUERY +
+              "                    return redirect(f\"{request.url_root.rstrip('/')}{url_quote(norm_path)}?{query}\")\n"
+              "                elif mode == S_STRICT and norm_path != url_path:\n" + _STRICT))
+T('pB_x_mm_one_expr', ['C06'], (R, _MM, "        return not (method and self.methods) or method.upper() in self.methods\n"))
+B('pB_x_mm_one_expr_bad', ['C06'], 'R06.d', (R, _MM, "        return not method or method.upper() in self.methods\n"))
+B('pB_x_mm_one_expr_bad2', ['C06'], 'R06.d', (R, _MM, "        return not (method and self.methods) or method in self.methods\n"))
+T('pB_x_hs_nested', ['C06'], (R, _HS, "        if not _dispatch_state.exceptions:\n            if _dispatch_state.allowed_methods:\n                return err_handler.method_not_allowed_type(allowed_methods=_dispatch_state.allowed_methods)\n            return err_handler.not_found_type(dispatch_state=_dispatch_state, request=request, application=_application)\n        return _dispatch_state.exceptions[-1]\n"))
+T('pB_x_rm_cond_expr', ['C06'], (R, "        self.methods = methods and set([m.upper() for m in methods])\n", "        self.methods = set(m.upper() for m in methods) if methods else methods\n"))
